@@ -436,3 +436,11 @@ func TestC05(t *testing.T) {
 	})
 	_ = sort.Strings
 }
+
+// callStrNoTime renders a call without wall-clock dependent arguments (EXPIRE's instant).
+func callStrNoTime(c doubles.Call) string {
+	if c.Method == "Expire" && len(c.Args) == 3 {
+		return c.Method + "(" + strconv.Quote(c.Args[0]) + ", <instant>, " + strconv.Quote(c.Args[2]) + ")"
+	}
+	return callStr(c)
+}
